@@ -10,6 +10,7 @@ pub fn run_case(case: &Case, cx: &mut Ctx) {
         Engine::SetHist => mmv_sethist::run_dyn(case, cx),
         Engine::SetAlg | Engine::MapEq => mmv_pairs::run_dyn(case, cx),
         Engine::Wide => mmv_maphist::wide::run(case, cx),
+        Engine::Slices => mmv_maphist::slices::run(case, cx),
         _ => {}
     }
 }
